@@ -121,9 +121,9 @@ def check_window(ctx, mon_state, rng, width, channels, data, uc):
         if cloner is not None:
             try:
                 val_ = cloner(val_)
-            except Exception as exc:
-                ctx.violation("copying-a-validator-raises:" + type(exc).__name__, {"case": case, "exception": repr(exc)[:200]})
-                return
+            except Exception:
+                # no statement says that a validator can be copied (it may hold a lock, a file, ...): the original is judged then
+                ctx.count("validators_that_refuse_to_be_copied")
         r = verdict(val_, data)
         results.append((thr, r))
         ctx.count("decisions_checked")
